@@ -203,6 +203,19 @@ def run(ctx):
             if not w.step(E.RULE_NAMES[(i + 3 * k) % len(E.RULE_NAMES)], i + k):
                 break
         w.finish()
+    # the same schedule from near-miss starts (one edit away from a rule template)
+    near = G.neighbour_texts()
+    nstep = 12 if ctx.tier == "quick" else 1
+    for i, t in enumerate(near):
+        if i % nstep != ctx.seed % nstep or (i // nstep) % ctx.nshards != ctx.shard:
+            continue
+        ctx.count("evaluations")
+        ctx.count("near-miss:walks")
+        w = Walk(ctx, t)
+        for k in range(6):
+            if not w.step(E.RULE_NAMES[(i + 3 * k) % len(E.RULE_NAMES)], i + k):
+                break
+        w.finish()
     from hypothesis import seed, settings
     from hypothesis.stateful import RuleBasedStateMachine, initialize, rule, run_state_machine_as_test
 
